@@ -349,6 +349,17 @@ func (s *Scenario) Body() (func(), *Run) {
 		if s.Cancel == "thread" {
 			vs.Go(func() { r.cancel(); r.CancelVC = vs.Now() })
 		}
+		// "prestack": one emitter stack with spare capacity, built once and shared by all instances
+		var sharedStack cff.Emitter
+		emKind := ""
+		if s.prog.Flow != nil {
+			emKind = s.prog.Flow.Emitters
+		} else {
+			emKind = s.prog.Par.Emitters
+		}
+		if emKind == "prestack" {
+			sharedStack = cff.EmitterStack(&recEmitter{r: r, idx: 0}, &recEmitter{r: r, idx: 1}, &recEmitter{r: r, idx: 2})
+		}
 		runInst := func(inst int) {
 			in := &probe.In{Ctx: context.WithValue(base, markerKey{}, inst), N: s.N, COE: s.COE, Inst: inst}
 			for k := 0; k < 8; k++ {
@@ -373,8 +384,12 @@ func (s *Scenario) Body() (func(), *Run) {
 			} else {
 				ne = pg.EmitterCount(s.prog.Par.Emitters)
 			}
-			for e := 0; e < ne; e++ {
-				in.Emit = append(in.Emit, &recEmitter{r: r, idx: e})
+			if emKind == "prestack" {
+				in.Emit = append(in.Emit, sharedStack, &recEmitter{r: r, idx: 3 + inst})
+			} else {
+				for e := 0; e < ne; e++ {
+					in.Emit = append(in.Emit, &recEmitter{r: r, idx: e})
+				}
 			}
 			out := s.reg.Run(in)
 			r.Outs[inst] = out
@@ -1265,6 +1280,39 @@ func checkEmitters(r *Run, inst int, o *probe.Out, byID map[string][]*call) []Fi
 		ne = pg.EmitterCount(p.Par.Emitters)
 		instrumented = p.Par.Instrument
 		scope = "parallel"
+	}
+	if ne > 0 && len(r.Outs) > 1 && instrumented && inst == 0 {
+		kind := ""
+		if p.Flow != nil {
+			kind = p.Flow.Emitters
+		} else {
+			kind = p.Par.Emitters
+		}
+		if kind == "prestack" {
+			// every instance's own emitter sees exactly its own run; the shared ones see all runs
+			done := func(em int) int {
+				n := 0
+				for _, e := range r.Emits {
+					if e.Em == em && e.Scope == scope && e.Ev == "Done" {
+						n++
+					}
+				}
+				return n
+			}
+			for i := range r.Outs {
+				if r.Outs[i] == nil {
+					continue
+				}
+				if n := done(3 + i); n != 1 {
+					add("C18", "the emitter passed only to instance %d received %d %s Done events, want exactly 1 (emitters combined with a shared stack must receive exactly the events they would receive alone)", i, n, scope)
+				}
+			}
+			for em := 0; em < 3; em++ {
+				if n := done(em); n != len(r.Outs) {
+					add("C18", "shared emitter %d received %d %s Done events for %d runs", em, n, scope, len(r.Outs))
+				}
+			}
+		}
 	}
 	if ne == 0 || len(r.Outs) > 1 {
 		return out
